@@ -3,8 +3,9 @@ from lib import semcheck, progs
 from lib.semcheck import impl, model_expr, compare, oracle, describe, shrink, IMPORTS
 
 ID = 'C05'
-THEOREMS = []
-CASE_TIMEOUT = 20
+THEOREMS = ['C05_cut_code_correct', 'C05_compiled_program_computes_reference', 'C05_cut_prunes_later_clauses', 'C05_no_cut_continues', 'C05_cut_local_to_predicate', 'C05_query_result_after_cut', 'C05_cut_spec_readable', 'C05_cut_first']
+CASE_TIMEOUT = 60
+MODEL_NEEDS_IMPL = True
 COQ_CHUNK = 20
 RULE = ('random programs as for C01 whose bodies also contain ! at the top level of a body, in disjunction branches and in then/else branches '
         '(never inside a condition or under \\+), with predicates of 2-4 clauses, callers that have their own alternatives, leaf solution counts '
@@ -17,7 +18,7 @@ def gen(rng, tier):
     n = 220 if tier == 'quick' else 5000
     cases = []
     for _ in range(n):
-        o = progs.Opts(control=rng.random() < 0.7, cut=True, opaque_cut=False, builtins=False)
+        o = progs.Opts(open_leaves=0.5 if rng.random() < 0.2 else 0.0, control=rng.random() < 0.7, cut=True, opaque_cut=False, builtins=False)
         p = progs.gen_program(rng, o)
         # force more cuts: append `, !` or prepend `!,` to some rule bodies
         cl = []
